@@ -25,6 +25,10 @@ const c06Prelude = `ধরি arr = [1, 2];
 দেখাও "before";
 `
 
+// c06PreludeML: the same prelude with a multi-line string literal and a multi-line comment in front, so that the
+// line of the fault is not the number of statements before it
+const c06PreludeML = "ধরি msg = \"\";\nmsg = \"line one\nline two\nline three\";\n/* a comment\n   over three\n   lines */\nদেখাও msg;\n" + c06Prelude
+
 const c06Tail = `দেখাও "AFTER";
 ধরি inp = ইনপুট("PROMPT");
 দেখাও inp;
@@ -182,7 +186,11 @@ func TestC06(t *testing.T) {
 					if !c.Mine(k) {
 						continue
 					}
-					src := c06Prelude + fmt.Sprintf(p.text, f.expr) + c06Tail
+					pre := c06Prelude
+					if k%2 == 0 {
+						pre = c06PreludeML
+					}
+					src := pre + fmt.Sprintf(p.text, f.expr) + c06Tail
 					cli := c.Thorough || k%7 == 0
 					c.c06Program(s, "fault-x-position", src, !strings.HasPrefix(p.name, "top-"), cli, "kind-"+f.kind, "pos-"+p.name)
 				}
@@ -253,7 +261,11 @@ func TestC06(t *testing.T) {
 				lines[at] = ind + "দেখাও " + f.expr + ";"
 				planted = f.kind
 			}
-			src := c06Prelude + strings.Join(lines, "\n") + c06Tail
+			pre := c06Prelude
+			if rapid.Bool().Draw(rt, "multiLinePrelude") {
+				pre = c06PreludeML
+			}
+			src := pre + strings.Join(lines, "\n") + c06Tail
 			c.c06Program(s, "rand-planted-fault", src, true, rapid.IntRange(0, 9).Draw(rt, "cli") == 0, "planted-"+planted)
 		})
 	})
